@@ -14,6 +14,31 @@ TRUST = ("Trusted: the simkit kernel, CPython's threading/queue sources re-bound
          "line/opcode events, the reference codec/peer in /verif/ref. Sampling, not enumeration: a clean batch is evidence, not proof. ")
 
 CLAIMED = {
+    "C03": ("Seeded mutations of well-formed messages (all truncation points, adversarial Message/AVP Length values, wrong-width typed "
+            "data, unknown enumerators, bad address family, version != 1, non-UTF-8 identities, misaddressed requests, garbage) injected "
+            "into a live node in every state in which bytes can arrive, with seeded segmentation and schedule; oracle: workers survive "
+            "or the connection closes cleanly, no lock stranded, API probes return, no thread computes forever; plus the decoder "
+            "sub-check (DiameterMessage.load under the step meter: returns or raises a library error within a length-only bound).",
+            TRUST + "The decoder sub-check is input sampling on the same corpus (labelled as such in the evidence); closing the connection is an accepted reaction to garbage.",
+            "DESIGN.md §5 C03"),
+    "C06": ("Seeded event histories over the RFC 6733 alphabet for both roles and 0..2 applications, up to 3 starts of the same object; "
+            "sequential mode compares the reported state and the wire after every event with the permissive reference model "
+            "ref/psm_model.py, concurrent mode checks the hard clauses H1-H8 only (Open only after a valid exchange, one DPR per stop, "
+            "DPR answered, disconnect closes, watchdog fires, delivery only while Open, state machine never raises/stops, Closed implies released).",
+            TRUST + "The model is permissive wherever the statement is silent; 'valid' messages are in bromelia's own canonical form.",
+            "DESIGN.md §5 C06"),
+    "C07": ("Seeded histories of base requests (CER, coalesced DWR bursts, CER in Open, DPR) with boundary / repeated / swapped / random "
+            "identifier pairs across up to 3 connections of the same Diameter object; oracle over the recorded global history: every "
+            "CEA/DWA/DPA on the wire matches exactly one earlier request, carries Result-Code and local origin, R clear, in request order, "
+            "and was emitted before any later inbound message took effect.",
+            TRUST + "'Emitted' means handed to the transport (written or in its send buffers); unanswered requests are not violations.",
+            "DESIGN.md §5 C07"),
+    "C13": ("Seeded route tables (1..3 applications x 1..4 codes, shared codes) registered with the real decorator, <= 16 concurrent requests "
+            "with injected handler outcomes (answer, None, wrong type, exceptions, slow), per-run barrier sizes and timers; oracle: exactly "
+            "the registered handler ran once, exactly one answer per request, fallback answer is UNABLE_TO_COMPLY with ids, Session-Id, "
+            "local origin and requester as destination.",
+            TRUST + "World B1: the connection object under Worker is a stub; multiprocessing.Manager is replaced by in-process primitives.",
+            "DESIGN.md §5 C13"),
     "C04": ("Seeded search over message sequences x segmentations (every byte, inside headers, coalesced, swept cut positions) "
             "x interleavings of transport reader, receive worker, state machine and consumer; oracle compares the sequence "
             "returned by get_message() with what the reference encoder produced and the DWAs on the wire with the DWRs sent.",
